@@ -146,10 +146,11 @@ set_option linter.unusedVariables false
 theorem ChainOK.front {s0 : Str} {n : Node} (h : ChainOK s0 n) :
     ∃ (ts la : List Token) (B : Nat) (st : List RedirCell),
       la.length ≤ 1 ∧ NoEOF ts ∧ TokSorted ts ∧ FCovers s0.length ts (Spec.leaves n) ∧
-      (B ≤ (Tape.ofInput s0).line.length → ChainL (Tape.ofInput s0).line st 0 (ts ++ la) B) ∧
+      (∃ la' c, (la' = la ∨ la' = []) ∧ ChainL (Tape.ofInput s0).line st 0 (ts ++ la') c ∧
+        (c = B ∨ ((Tape.ofInput s0).line.length < c ∧ (Tape.ofInput s0).line.length < B))) ∧
       ((∃ t ∈ la, t.pos = none) → (Tape.ofInput s0).line.length ≤ B) := by
-  obtain ⟨ts, la, B, st, h1, h2, h3, h4, h5, h6⟩ := h
-  exact ⟨ts, la, B, st, h1, h2, h3, h4, fun hb => (h5 hb).toL, h6⟩
+  obtain ⟨ts, la, B, st, h1, h2, h3, h4, ⟨la', c, g1, g2, g3⟩, h6⟩ := h
+  exact ⟨ts, la, B, st, h1, h2, h3, h4, ⟨la', c, g1, g2.toL, g3⟩, h6⟩
 
 end Bashlex.C05
 
